@@ -103,10 +103,53 @@ func flagFuncsPass(p *Program, out map[*ssa.Function]bool) {
 				}
 			}
 		}
+		if hasFalse && isNewHelper(f) && invertedFlag(f) {
+			// `(rings, exteriorCollapsed bool)`: true announces the placeholder, the
+			// values are real when the flag is false — not the comma-ok convention
+			// this rule is about
+			continue
+		}
 		if hasFalse {
 			out[f] = true
 		}
 	}
+}
+
+// invertedFlag: among f's returns with a constant last result, those with true
+// carry only placeholders (nil / zero constants) and some return with false
+// carries a real value.
+func invertedFlag(f *ssa.Function) bool {
+	n := f.Signature.Results().Len()
+	placeholder := func(r *ssa.Return) bool {
+		for i := 0; i < n-1; i++ {
+			k, ok := r.Results[i].(*ssa.Const)
+			if !ok {
+				return false
+			}
+			if k.Value != nil {
+				if v, isInt := constInt(k); !isInt || v != 0 {
+					return false
+				}
+			}
+		}
+		return true
+	}
+	truePlaceholder, trueReal, falseReal := false, false, false
+	for _, r := range returnsOf(f) {
+		b, ok := constBool(r.Results[n-1])
+		if !ok {
+			return false
+		}
+		switch {
+		case b && placeholder(r):
+			truePlaceholder = true
+		case b:
+			trueReal = true
+		case !placeholder(r):
+			falseReal = true
+		}
+	}
+	return truePlaceholder && falseReal && !trueReal
 }
 
 // resolveCell follows loads of single-store cells (locals and captured
